@@ -6,7 +6,7 @@
    algorithms use as the number of parts); [gap] = heaviest - lightest load. *)
 From Coupe Require Import Lib.Prelude Model.NumPart Model.Vn
   Proofs.NumPartLemmas Proofs.VnBestProofs Proofs.VnFirstProofs Gen.VnGen
-  Lib.SFloat Model.ArithW Model.VnW Proofs.VnWProofs.
+  Lib.SFloat Model.ArithW Model.VnW Proofs.VnWProofs Proofs.ArithWLemmas Proofs.VnBestWTermination.
 From Coq Require Import Floats.SpecFloat.
 Open Scope Z_scope.
 
@@ -131,12 +131,66 @@ Proof. exact vnbest_f64_never_returns. Qed.
 Print Assumptions C14_vnbest_f64_terminates_refuted.
 
 (* ... and with the progress test (the current code) the same input returns at once, nothing moved.
-   Termination of the new loop on binary64 in general is NOT proved (no clean decreasing measure was
-   found: the pair of parts changes from turn to turn, absorbed weights leave the tracked loads
-   unchanged, and rounded moves do not conserve the sum); it is validated by the f64 stream only. *)
+   Termination of the new loop on binary64 in general: see C14_vnbest_f64_terminates below (proved from
+   monotonic-rounding facts through a lexicographic measure; the facts themselves are premises). *)
 Theorem C14_vnbest_f64_fixed_example : vn_bestW F64arith true 10 osc_ws osc_p = Ok (osc_p, 0%N).
 Proof. exact vnbest_f64_fixed_returns. Qed.
 Print Assumptions C14_vnbest_f64_fixed_example.
+
+(* ---------------- termination of the repaired loop over an arbitrary arithmetic ---------------- *)
+
+(* [round_laws A ok rank]: < is a strict weak order with equal ties on the admitted values, [rank] embeds it
+   into the non-negative integers, and the rounded + and - are monotone in the weight and never leave
+   [m, M] (fields rl_add_ge .. rl_sub_self of Proofs/VnBestWTermination.v).  Under these laws the loop WITH
+   the progress test of fix 98041ea terminates: a lexicographic measure on the tracked loads decreases at
+   every move (NOT the tracked imbalance, see C14_vnbest_f64_imbalance_not_strict), so the model never runs
+   out of fuel beyond a (symbolic, huge) bound.  Premise on the initial loads: they are admitted values
+   ("the sums do not overflow"). *)
+Theorem C14_vnbest_terminates_generic : forall (A : arith) (ok : W A -> Prop) (rank : W A -> Z),
+  round_laws A ok rank ->
+  forall ws p, Forall ok ws ->
+  (forall L, parts_loadW A ws p (part_count p) = Ok L -> Forall ok L) ->
+  exists fuel0, forall fuel, (fuel0 <= fuel)%nat -> vn_bestW A true fuel ws p <> OutOfFuel.
+Proof. exact vn_bestW_terminates. Qed.
+Print Assumptions C14_vnbest_terminates_generic.
+
+(* the integers satisfy the laws: an independent termination proof of the generic model at Z *)
+Theorem C14_vnbest_terminates_Z_generic : forall ws p, Forall (fun w => 0 <= w) ws ->
+  exists fuel0, forall fuel, (fuel0 <= fuel)%nat -> vn_bestW Zarith true fuel ws p <> OutOfFuel.
+Proof. exact vn_bestW_Z_terminates. Qed.
+Print Assumptions C14_vnbest_terminates_Z_generic.
+
+(* binary64, on +0 and the positive finite numbers: the order and rank laws are PROVED for SpecFloat ... *)
+Theorem C14_f64_order_rank_laws :
+  order_laws F64arith okV
+  /\ (forall x, okV x -> 0 <= rankV x)
+  /\ (forall x y, okV x -> okV y -> SFltb x y = true -> rankV x < rankV y)
+  /\ (forall x, okV x -> SFltb x (S754_zero false) = false).
+Proof. exact (conj F64_order_laws_V (conj rankV_nonneg (conj rankV_mono okV_nonneg))). Qed.
+Print Assumptions C14_f64_order_rank_laws.
+
+(* ... and, GIVEN the ten IEEE-754 facts of [f64_rounding_facts] about rounded + and - (monotone in the
+   weight, inside [m, M], no NaN / -0.0 / negative result; not proved here for SpecFloat's SFadd / SFsub),
+   VnBest with the progress test terminates on finite non-negative binary64 weights *)
+Theorem C14_vnbest_f64_terminates : f64_rounding_facts ->
+  forall ws p, Forall okV ws ->
+  (forall L, parts_loadW F64arith ws p (part_count p) = Ok L -> Forall okV L) ->
+  exists fuel0, forall fuel, (fuel0 <= fuel)%nat -> vn_bestW F64arith true fuel ws p <> OutOfFuel.
+Proof. exact vn_bestW_f64_terminates. Qed.
+Print Assumptions C14_vnbest_f64_terminates.
+
+(* why not simply "the tracked imbalance decreases": 1e16 0.25 0.25 0.25 with parts 0 0 0 1 -- the weight
+   0.25 moves, yet the largest load, the imbalance (and the number of parts at the maximum) are unchanged *)
+Theorem C14_vnbest_f64_imbalance_not_strict :
+  let ws := map (fun b => f64_of_bits b) [4846369599423283200; 4598175219545276416; 4598175219545276416; 4598175219545276416]%N in
+  let crit := rev (sort_items_descW F64arith (items_ofW F64arith ws)) in
+  exists L L' p',
+    parts_loadW F64arith ws [0; 0; 0; 1]%N 2 = Ok L
+    /\ vb_stepW F64arith true crit ([0; 0; 0; 1]%N, L, 0%N) = inl (p', L', 1%N)
+    /\ p' <> [0; 0; 0; 1]%N
+    /\ maxW F64arith L' = maxW F64arith L
+    /\ f64_sub (maxW F64arith L') (minW F64arith L') = f64_sub (maxW F64arith L) (minW F64arith L).
+Proof. exact vnbest_f64_imbalance_not_strict. Qed.
 
 (* The exact-gap statement does not survive rounding: REFUTED for binary64 in exact arithmetic -- VnFirst on 0.1 0.1 0.6000000000000001 0.7000000000000001
    with parts 0 1 1 0 returns 1 1 1 0: the exact gap grows by 2^-54 ([check_vn_f64] = (within the
